@@ -31,6 +31,33 @@ within `ε` under the property function `Hf` of the material at hand. -/
 def SolverSound (Hf : PhaseState → α → α) (ε : α) (solve : Solver α) : Prop :=
   ∀ (k : Nat) (ph : PhaseState) (x T : α), solve k ph x = some T → |Hf ph T - x| ≤ ε
 
+/-- **recordedSolver_sound.**  The solver the driver runs (the calls recorded from the real run, answered only
+when asked for the recorded phase state and, up to `δ`, the recorded target) meets `SolverSound` with
+`ε + δ` as soon as every recorded answer is sound against its own recorded target — which is what
+the driver's hypothesis monitor evaluates call by call.  So the hypotheses of `set_readback`,
+`mix_energy`, `separate_energy`, … are met by a run, not only by a hypothetical solver. -/
+theorem recordedSolver_sound {Hf : PhaseState → α → α} {ε δ : α} (near : α → α → Bool)
+    (hnear : ∀ t x, near t x = true → |t - x| ≤ δ) (calls : List (RecCall α))
+    (hcalls : ∀ c ∈ calls, ∀ T, c.T = some T → |Hf c.ph T - c.target| ≤ ε) :
+    SolverSound Hf (ε + δ) (recordedSolver near calls) := by
+  intro k ph x T h
+  unfold recordedSolver at h
+  cases hc : calls[k]? with
+  | none => simp [hc] at h
+  | some c =>
+    simp only [hc] at h
+    by_cases hm : (c.ph == ph && near c.target x) = true
+    · simp only [hm, ↓reduceIte] at h
+      have hm' : c.ph = ph ∧ near c.target x = true := by simpa using hm
+      have hmem : c ∈ calls := List.mem_of_getElem? hc
+      have h1 := hcalls c hmem T h
+      have h2 := hnear _ _ hm'.2
+      rw [← hm'.1]
+      calc |Hf c.ph T - x| = |(Hf c.ph T - c.target) + (c.target - x)| := by ring_nf
+        _ ≤ |Hf c.ph T - c.target| + |c.target - x| := abs_add_le _ _
+        _ ≤ ε + δ := add_le_add h1 h2
+    · simp [hm] at h
+
 /-- Read-back: when an assignment to a non-empty stream returns, the property function at the
 stream's new phase and temperature equals the assigned value up to the solver residual —
 also when the phase was flipped by the fallback branch. -/
@@ -260,6 +287,29 @@ theorem mixFromX_eq_mixFrom (solve : Solver α) (vleRun : VleRun α) (recv : St 
 was asked for, up to `ε` (`Hv` = enthalpy of the receiver's material as the flash left it). -/
 def VleSound (Hv : VleRes α → α) (ε : α) (vleRun : VleRun α) : Prop :=
   ∀ (H P : α) (r : VleRes α), vleRun (.HP H P) = some r → |Hv r - H| ≤ ε
+
+/-- **recordedVle_sound.**  The flash the driver runs (the one recorded call, answered only for the recorded
+specification) meets `VleSound` with `ε + δ` when the recorded answer reproduces the recorded `H`. -/
+theorem recordedVle_sound {Hv : VleRes α → α} {ε δ : α} (near : α → α → Bool)
+    (hnear : ∀ t x, near t x = true → |t - x| ≤ δ) (rec : Option (VleSpec α × Option (VleRes α)))
+    (hrec : ∀ H P r, rec = some (.HP H P, some r) → |Hv r - H| ≤ ε) :
+    VleSound Hv (ε + δ) (recordedVle near rec) := by
+  intro H P r h
+  unfold recordedVle at h
+  match rec, hrec with
+  | none, _ => simp at h
+  | some (.TP T' P', r'), _ => simp at h
+  | some (.HP H' P', r'), hrec =>
+    simp only at h
+    by_cases hm : (near H' H && P' == P) = true
+    · simp only [hm, ↓reduceIte] at h
+      have hm' : near H' H = true ∧ (P' == P) = true := by simpa using hm
+      have h1 := hrec H' P' r (by rw [h])
+      have h2 := hnear _ _ hm'.1
+      calc |Hv r - H| = |(Hv r - H') + (H' - H)| := by ring_nf
+        _ ≤ |Hv r - H'| + |H' - H| := abs_add_le _ _
+        _ ≤ ε + δ := add_le_add h1 h2
+    · simp [hm] at h
 
 /-- **mix_vle_energy.**  `mix_from(..., vle=True)` with the energy balance on and two or more
 non-empty inlets: the flash is asked for exactly `H = Q + Σ heat + Σ H_in` at `P = min P_in`; when
